@@ -60,6 +60,19 @@ NA = {
 }
 PENDING = {
 }
+# added in round 11 (DESIGN.md section 8.13)
+EXTRA = {
+ "C01": " Runs with line-level pre-emption send bursts of 2-3 identical climbing requests at once (threads and simulated children interleaved at shared-state stores).",
+ "C02": " In a third of the histories the protocols option of the live configuration object is replaced between two connections; later connections are judged by the list then in force.",
+ "C03": " The world also holds documents whose first line begins like an mbox separator without being one.",
+ "C07": " Link-file blocks are separated by blank or by comment lines; in a fifth of the runs a link file or .cap file is replaced, after a first listing, by content of the same length and modification time.",
+ "C10": " The lifetime option itself is lowered (also to 0) and restored on the live configuration during a history; every listing is judged by the lifetime in force when it is served.",
+ "C11": " In a third of the truncate / zero-fill runs the same process first reads generation 1 of the cache, the directory changes, the cache expires and is rewritten, and generation 2 is what gets cut.",
+ "C12": " Further kinds: a .cap that is a FIFO / socket / regular file / link; entries that go bad only after a first listing was served and cached (second request inside the lifetime).",
+ "C14": " Zip storms run in worlds with and without a regular file under the index cache's bare name (the saved index is then read back while others rewrite it); long-life histories of 42-70 connections, mostly TLS, precede a burst; Condition.wait() parks the actor in the scheduler.",
+ "C19": " Option names are spelled in lower / upper / title / camel case (configparser option names are case-insensitive); key files exist and are readable.",
+ "C20": " Children started for the request (decompressor, script) are real processes waited for through the real waitpid; none may be left running or unreaped after the worker finished (outputs up to 300 KB, beyond a pipe buffer).",
+}
 
 def main():
     checks = []
@@ -71,7 +84,8 @@ def main():
             "evidence_file": "/verif/evidence/%s.json" % pid,
             "replay_cmd_template": "./check %s --replay {path}" % pid,
             "engine": "simkit",
-            "level_claimed": {"category": level, "text": text, "design_ref": "DESIGN.md section " + ref},
+            "level_claimed": {"category": level, "text": text + EXTRA.get(pid, ""),
+                              "design_ref": "DESIGN.md section " + ref + " and 8.13"},
             "level_note": note,
             "technique": tech,
         })
